@@ -18,7 +18,7 @@
 From Coq Require Import List Bool.
 Import ListNotations.
 From MVGen Require Import Tables_gen.
-From MV Require Import Base.MvBytes Ref.RefCssColors Css.CssBox Css.CssColor Css.CssColorProofs Tables.TablesCheck Num.NumModel Num.NumSpec Css.CssDim Css.CssDimSpec Css.CssDimProofs.
+From MV Require Import Base.MvBytes Ref.RefCssColors Css.CssBox Css.CssColor Css.CssColorProofs Tables.TablesCheck Num.NumModel Num.NumSpec Css.CssDim Css.CssDimSpec Css.CssDimProofs Css.CssAlpha Css.CssAlphaProofs.
 
 Theorem box_shorthand_sound : forall (tok : Type) (teq : tok -> tok -> bool),
   (forall a b, teq a b = true <-> a = b) -> forall vs, box4 tok (box_collapse tok teq vs) = box4 tok vs.
@@ -110,4 +110,29 @@ Example css_dimensions_nonvacuous :
   dimension_token false optzero false true [48; 69; 77] = [48] /\
   dimension_token false optzero false true [49; 46; 53; 48; 80; 88] = [49; 46; 53; 112; 120] /\
   dimension_token false optzero true true [48; 112; 120] = [48; 112; 120].
+Proof. vm_compute. repeat split; reflexivity. Qed.
+
+(* ---------- alpha values: the shorter of .X and X% ----------
+   minifyNumberPercentage (Css/CssAlpha.v; tied on 2,000 alpha values per run through css.Minify) rewrites an already
+   minified token: X0% -> .X, .0X -> X%, .00R -> .R% (only when a digit follows: the repair of K137, the defect this theorem's
+   missing hypothesis pointed at).  For EVERY number the css number minifier can hand over — either value of KeepCSS2, any
+   exponent — the final token denotes the same value; the rewrite is never longer and strictly shorter when it changes
+   anything. *)
+Theorem alpha_number_keeps_its_value : forall keep s p,
+  lex_number s = Some p -> zlen s <= 10 ^ 25 ->
+  let r := min_number_percentage false (css_number keep s) in
+  same_num (tok_value (fst r) (snd r)) (Some (value p)).
+Proof. exact alpha_number_value. Qed.
+Print Assumptions alpha_number_keeps_its_value.
+
+Theorem alpha_rewrite_never_longer : forall is_pct d,
+  let r := min_number_percentage is_pct d in
+  (length (snd r) <= length d)%nat /\ (r <> (is_pct, d) -> (length (snd r) < length d)%nat).
+Proof. exact min_number_percentage_not_longer. Qed.
+Print Assumptions alpha_rewrite_never_longer.
+
+Example alpha_nonvacuous :
+  min_number_percentage true [53; 48; 37] = (false, [46; 53]) /\                      (* 50% -> .5 *)
+  min_number_percentage false [46; 48; 48; 53] = (true, [46; 53; 37]) /\             (* .005 -> .5% *)
+  min_number_percentage false [46; 48; 48; 101; 57] = (false, [46; 48; 48; 101; 57]). (* .00e9 stays *)
 Proof. vm_compute. repeat split; reflexivity. Qed.
